@@ -286,9 +286,12 @@ func (it *Interp) timeNow() Val {
 
 type tickerState struct{ ch *ChanObj }
 
+// tickBudget: ticks a time.Ticker may deliver on one path
+const tickBudget = 2
+
 func (it *Interp) newTicker(d Val) Val {
 	it.nextObj++
-	ch := &ChanObj{ID: it.nextObj, Cap: 1, Ticker: true, Budget: 2}
+	ch := &ChanObj{ID: it.nextObj, Cap: 1, Ticker: true, Budget: tickBudget}
 	tp := it.prog.ImportedPackage("time").Type("Ticker").Type()
 	o := it.allocType(tp, "time.NewTicker")
 	o.Slots[0] = ch
@@ -301,6 +304,7 @@ type ctxState struct {
 	done     *ChanObj
 	canceled bool
 	parent   *ctxState
+	children []*ctxState
 }
 
 func (it *Interp) contextWithCancel(parent Val) Val {
@@ -309,6 +313,13 @@ func (it *Interp) contextWithCancel(parent Val) Val {
 	if p, ok := parent.(Iface); ok {
 		if op, ok := p.V.(*Opaque); ok {
 			cs.parent, _ = op.V.(*ctxState)
+		}
+	}
+	if cs.parent != nil {
+		cs.parent.children = append(cs.parent.children, cs)
+		if cs.parent.canceled {
+			cs.canceled = true
+			cs.done.Closed = true
 		}
 	}
 	ctx := Iface{T: &opaqueType{"context"}, V: &Opaque{Kind: "context", V: cs}}
